@@ -21,7 +21,7 @@ type zzPagCfg struct {
 func zzPagState(tag string, cfg zzPagCfg) *BufferedPaginatedStore {
 	s := &BufferedPaginatedStore{pageLenLog2: defaultPageLenLog2, pageLenMask: (1 << defaultPageLenLog2) - 1}
 	if cfg.inUse {
-		s.minPageIndex = zzvMInt(tag+".minPageIndex", -(1 << 26), 1<<26)
+		s.minPageIndex = zzvMInt(tag+".minPageIndex", -(1<<26)+16, (1<<26)-16)
 	} else {
 		s.minPageIndex = maxInt
 	}
